@@ -67,6 +67,16 @@ CLAIMED.update({
         ref="DESIGN.md 3/C07"),
 })
 
+CLAIMED.update({
+    "C20": dict(
+        text="Ghost-trace proof on the real git.tmp_worktree (every git/temp-dir call is an event): add failure => RuntimeError and no further git call; after a "
+             "successful add, worktree remove / prune / branch -D of exactly the created location and branch on every exit of the with body (any exception class), "
+             "temp dir always released, body exceptions propagate; interruption of add; load_git runs the loader strictly inside the worktree context. "
+             "A fault-enumeration tier replays the same on a real git repository (bounded, separate).",
+        note="Under the listed git axioms; interruption only at call boundaries. Known finding C20-F1: interruption of a clean-up command skips the remaining ones.",
+        ref="DESIGN.md 3/C20"),
+})
+
 NA_REASON = {
     "C17": "relates two whole-program analyses through CPython's run-time object model; a contract for the inspector would have to assume the very "
            "object model the property compares against, so no obligation over /repo code alone implies agreement (DESIGN.md section 4)",
